@@ -3,6 +3,8 @@
 -/
 import TwProofs.Lemmas.Sort
 
+import TwProofs.C04
+
 namespace Tw.C12
 open Tw
 
@@ -127,6 +129,59 @@ theorem mapGet_sortByKey {α} (l : List (Bytes × α)) (hd : KeysDistinct l) (k 
       have := (key l hd v).mp h2
       have := (key _ hd' v).mpr (hperm.symm.subset this)
       rw [h1] at this; exact absurd this (by simp)
+
+open Tw.C04 in
+/-- `EnvFromMap.go`: every pair it works through ends up visible with its converted value, and
+    what was visible before stays as it was (keys distinct from it) -/
+theorem envGo_visible : ∀ (l : List (Bytes × GoVal)) (s : List (Bytes × Val)) (env' : Env),
+    KeysDistinct l → envFromMap.go l [s] = .ok env' →
+    (∀ k g, (k, g) ∈ l → ∃ v, nativeToObject g = some v ∧ env'.get k = some v) ∧
+    (∀ k, (∀ p ∈ l, p.1 ≠ k) → env'.get k = Env.get [s] k)
+  | [], s, env', _, h => by
+    simp only [envFromMap.go] at h
+    cases h
+    exact ⟨fun _ _ hm => (by cases hm), fun _ _ => rfl⟩
+  | (k0, g0) :: r, s, env', hd, h => by
+    have hd' := List.pairwise_cons.mp hd
+    simp only [envFromMap.go] at h
+    cases hv : nativeToObject g0 with
+    | none => rw [hv] at h; cases h
+    | some v0 =>
+      rw [hv] at h
+      simp only [] at h
+      cases hs : Env.set [s] k0 v0 with
+      | error e => rw [hs] at h; cases h
+      | ok e1 =>
+        rw [hs] at h
+        simp only [] at h
+        have he1 : e1 = [mapSet s k0 v0] := set_writes_innermost s [] k0 v0 e1 hs
+        subst he1
+        obtain ⟨ih1, ih2⟩ := envGo_visible r (mapSet s k0 v0) env' hd'.2 h
+        constructor
+        · intro k g hm
+          rcases List.mem_cons.mp hm with hm | hm
+          · cases hm
+            refine ⟨v0, hv, ?_⟩
+            rw [ih2 k0 (fun p hp => hd'.1 p hp |> fun hne => fun e => hne e.symm)]
+            simp [Env.get, mapGet_mapSet_same]
+          · exact ih1 k g hm
+        · intro k hk
+          rw [ih2 k (fun p hp => hk p (List.mem_cons_of_mem _ hp))]
+          have hne : k ≠ k0 := fun e => hk (k0, g0) List.mem_cons_self e.symm
+          simp [Env.get, mapGet_mapSet_other _ _ _ _ hne]
+
+open Tw.C04 in
+/-- **every variable of the data map is visible** with the converted value of what the caller
+    passed (keys distinct, as in a Go map), in the outermost scope — and therefore, by
+    `C04.nested_block_sees_outer`, in every nested block unless shadowed -/
+theorem data_is_visible (data : List (Bytes × GoVal)) (env : Env) (hd : KeysDistinct data)
+    (h : envFromMap data = .ok env) (k : Bytes) (g : GoVal) (hm : (k, g) ∈ data) :
+    ∃ v, nativeToObject g = some v ∧ env.get k = some v := by
+  unfold envFromMap at h
+  have hperm := sortByKey_perm data
+  have hd' : KeysDistinct (sortByKey data) := List.Pairwise.perm hd hperm.symm (fun h e => h e.symm)
+  exact (envGo_visible (sortByKey data) [] env hd' h).1 k g (hperm.symm.subset hm)
+
 
 /-! non-vacuity -/
 
